@@ -46,8 +46,19 @@ def cases(tier, seed):
              "alpha_on_bound": bool((i // 2) % 4 == 1), "preflat": bool(i % 5 == 3),
              # region-of-interest style detectors: anisotropic pixels and different x / y offsets (every second problem)
              "spacing_y_factor": float(rng.uniform(0.8, 1.25)) if i % 2 else 1.0,
-             "offset": [float(rng.uniform(0.5, 3)), float(rng.uniform(4, 8))] if (i // 2) % 2 == 0 else [0.0, 0.0]}
+             "offset": [float(rng.uniform(0.5, 3)), float(rng.uniform(4, 8))] if (i // 2) % 2 == 0 else [0.0, 0.0],
+             # the detector plane need not be the plane z = 0 (every third problem; the particle is then further up by as much)
+             "det_z": [0.0, 0.0, float(rng.uniform(0.5, 3.0))][i % 3],
+             # data that the caller flattened (all pixels, no selection) and a strategy that then selects pixels itself
+             "flat_then_npixels": bool(i % 7 == 5)}
         out.append(c)
+    # the generating height lies exactly on the UPPER edge of its prior, everything else well inside (F114)
+    out.append(dict(out[0], id="fit-zupper-nmpfit", strategy="nmpfit", start="perturbed", subset=False, tight_bounds=False, alpha_on_bound=False, z_on_upper_bound=True,
+                    preflat=False, wl_from_data=False, theory="Mie", fit_lens_angle=False, det_z=0.0, flat_then_npixels=False, seed=[seed, "zupper", 0]))
+    out.append(dict(out[-1], id="fit-zupper-guess-nmpfit", z_guess_on_bound=True, seed=[seed, "zupper", 1]))
+    out.append({"id": "fit-shortcut", "kind": "shortcut", "strategy": "nmpfit", "subset": False, "cost": 10})
+    for edge in ("upper", "lower"):
+        out.append({"id": "fit-pegged-%s" % edge, "kind": "pegged", "edge": edge, "strategy": "nmpfit", "subset": False, "cost": 10})
     for j, strat in enumerate(["nmpfit", "scipy"]):
         c = dict(out[j], id="fit-edges-%s" % strat, strategy=strat, start="perturbed", subset=False, tight_bounds=False, alpha_on_bound=False, all_on_bounds=True,
                  preflat=False, wl_from_data=False, theory="Mie", fit_lens_angle=False, seed=[seed, "edges", j])
@@ -57,7 +68,50 @@ def cases(tier, seed):
 
 # ------------------------------------------------------------------ child
 
+def _run_pegged(case):
+    """A recorded problem in which the minimiser runs into the upper limit of the height on its way: the generating height IS that limit
+    (prior Uniform(3, z_true)), every other parameter starts two percent off. The limits handed to the minimiser must map back into the
+    prior's support, or the point on the limit has zero prior probability and the fit stalls (F114)."""
+    import holopy as hp
+    from holopy.core.metadata import detector_grid, update_metadata
+    from holopy.core.prior import Uniform
+    from holopy.inference import AlphaModel, NmpfitStrategy
+    from holopy.scattering import Sphere, calc_holo
+    det = update_metadata(detector_grid(shape=(24, 20), spacing=0.1), medium_index=1.33, illum_wavelen=0.66, illum_polarization=(1, 0), noise_sd=1.)
+    truth = {"x": 1.5280779463698335, "y": 1.1993477276883455, "z": 7.042126161666966, "r": 0.4428627393637992, "alpha": 0.9247776766229697}
+    f = 0.9815367577465285
+    data = calc_holo(det, Sphere(n=1.59, r=truth["r"], center=(truth["x"], truth["y"], truth["z"])), scaling=truth["alpha"])
+    zp = {"upper": Uniform(3, truth["z"], guess=truth["z"] * f), "lower": Uniform(truth["z"], 10, guess=truth["z"] / f)}[case["edge"]]
+    sphere = Sphere(n=1.59, r=Uniform(0.3, 0.8, guess=truth["r"] * f), center=(Uniform(0, 3, guess=truth["x"] * f), Uniform(0, 3, guess=truth["y"] / f), zp))
+    model = AlphaModel(sphere, noise_sd=1., alpha=Uniform(0.5, 1, guess=truth["alpha"] / f))
+    res = hp.fit(data, model, strategy=NmpfitStrategy())
+    got = dict(zip(["r", "x", "y", "z", "alpha"], [res.parameters[k] for k in ("r", "center.0", "center.1", "center.2", "alpha")]))
+    err = max(abs(got[k] - truth[k]) / abs(truth[k]) for k in truth)
+    return {"resid": {"recovery": fnum(err)}, "flags": {"within_bounds": bool(zp.lower_bound <= got["z"] <= zp.upper_bound)}, "got": got, "truth": truth, "err": err}
+
+
+def _run_shortcut(case):
+    """hp.fit(data, scatterer, parameters=[names]) -- the short form that builds the model itself -- takes the scatterer's centre in any
+    sequence type and gives the same fit (F117)"""
+    import holopy as hp
+    from holopy.core.metadata import detector_grid, update_metadata
+    from holopy.scattering import Sphere, calc_holo
+    det = update_metadata(detector_grid(shape=(20, 22), spacing=0.1), medium_index=1.33, illum_wavelen=0.66, illum_polarization=(1, 0), noise_sd=0.05)
+    data = calc_holo(det, Sphere(n=1.59, r=0.5, center=(1.0, 1.1, 8.0)), scaling=1.0)
+    got = {}
+    for form, conv in (("list", list), ("tuple", tuple), ("array", np.array)):
+        res = hp.fit(data, Sphere(n=1.59, r=0.51, center=conv([1.02, 1.08, 8.1])), parameters=["x", "y", "z", "r"])
+        got[form] = [float(v) for v in res.parameters.values()]
+    flags = {"centre_form_irrelevant": bool(got["list"] == got["tuple"] == got["array"])}
+    err = max(abs(a - b) / b for a, b in zip(sorted(got["list"]), sorted([1.0, 1.1, 8.0, 0.5, 1.0][:len(got["list"])])))
+    return {"resid": {}, "flags": flags, "got": got, "truth": None, "err": err}
+
+
 def run_case(case):
+    if case.get("kind") == "pegged":
+        return _run_pegged(case)
+    if case.get("kind") == "shortcut":
+        return _run_shortcut(case)
     import holopy as hp
     from holopy.core.prior import Uniform
     from holopy.core.metadata import update_metadata
@@ -78,6 +132,10 @@ def run_case(case):
     off = case.get("offset", [0.0, 0.0])
     det = hp.detector_grid(N, (sp, spy))
     det = det.assign_coords(x=det.x.values + off[0], y=det.y.values + off[1])
+    dz = float(case.get("det_z", 0.0))
+    if dz:
+        det = det.assign_coords(z=det.z.values + dz)
+        truth["z"] = truth["z"] + dz
     truth["x"] = off[0] + case["fx"] * N * sp
     truth["y"] = off[1] + case["fy"] * N * spy
     th_true = MieLens(lens_angle=case["lens_angle"]) if lens else Mie()
@@ -92,6 +150,21 @@ def run_case(case):
     if case.get("alpha_on_bound"):
         bounds["alpha"] = (0.3, truth["alpha"])
         guess["alpha"] = min(guess["alpha"], truth["alpha"])
+    if case.get("z_on_upper_bound"):
+        # hostile choice of the edge: a height whose scaled-and-unscaled value exceeds it by one rounding error (true of about every tenth
+        # value), so that a minimiser pegged at its scaled limit sits just outside the prior unless the limit is handed over with care
+        zt = truth["z"]
+        for j in range(400):
+            cand = zt + 1e-3 * j
+            pr = Uniform(1.0, cand, guess=cand if case.get("z_guess_on_bound") else cand * 0.985)
+            if pr.unscale(pr.scale(cand)) > cand:
+                zt = cand
+                break
+        truth["z"] = zt
+        data = calc_holo(det, Sphere(n=case["n"], r=truth["r"], center=(truth["x"], truth["y"], truth["z"])), nmed, wl, pol, theory=th_true, scaling=truth["alpha"])
+        data = update_metadata(data, noise_sd=0.05)
+        bounds["z"] = (1.0, truth["z"])
+        guess["z"] = truth["z"] if case.get("z_guess_on_bound") else truth["z"] * 0.985
     if case.get("all_on_bounds"):
         # every generating value sits exactly on an edge of its prior (lower edges, the scaling on its upper edge)
         bounds = {k: ((truth[k], truth[k] * 1.5) if k != "alpha" else (0.3, truth[k])) for k in keys}
@@ -110,6 +183,10 @@ def run_case(case):
         from holopy.core.metadata import make_subset_data
         data = make_subset_data(data, pixels=int(0.7 * N * N), seed=77)
         npx = None
+    elif case.get("flat_then_npixels"):
+        from holopy.core.metadata import flat
+        data = flat(data)
+        npx = int(0.6 * N * N)
     if case["strategy"] == "nmpfit":
         strat = NmpfitStrategy(npixels=npx, seed=1234 if npx else None)
     else:
@@ -236,8 +313,9 @@ def judge(case, obs):
 
 def judge_exception(case, o):
     ex = o["exception"]
-    return [{"mech": "exception.%s.%s.%s" % (ex["type"], case["strategy"], "subset" if case["subset"] else "full"),
-             "detail": ex["tb"][-1000:] + " ;; %s" % {k: case[k] for k in ("theory", "strategy", "subset", "start")}}]
+    regime = ".caller_flattened_data" if case.get("flat_then_npixels") else ""
+    return [{"mech": "exception.%s.%s.%s%s" % (ex["type"], case["strategy"], "subset" if case["subset"] else "full", regime),
+             "detail": ex["tb"][-1000:] + " ;; %s" % {k: case.get(k) for k in ("theory", "strategy", "subset", "start", "kind")}}]
 
 
 def nontrivial(case, obs):
